@@ -306,7 +306,7 @@ func c03Handover(e *Env) {
 		// structField: what field #field of the struct value / variable `base` holds (a struct built by a literal, copied between
 		// locals, bound as the receiver of a method value)
 		structField = func(base ssa.Value, field, d int) *ssa.MakeChan {
-			if d > 8 || base == nil {
+			if d > 14 || base == nil {
 				return nil
 			}
 			switch x := base.(type) {
@@ -318,6 +318,20 @@ func c03Handover(e *Env) {
 			case *ssa.UnOp:
 				if x.Op == token.MUL {
 					return structField(x.X, field, d+1) // a load of a struct variable: look at the variable
+				}
+				return nil
+			case *ssa.Call:
+				// built by a small constructor analysed as part of this function: look at what it returns
+				if h := core.AbsorbedCallee(x); h != nil {
+					var out *ssa.MakeChan
+					for _, ret := range core.ReturnsOf(h) {
+						if len(ret.Results) >= 1 {
+							if mc := structField(core.RetVal(ret, 0), field, d+1); mc != nil {
+								out = mc
+							}
+						}
+					}
+					return out
 				}
 				return nil
 			case *ssa.Alloc:
@@ -348,7 +362,7 @@ func c03Handover(e *Env) {
 			return nil
 		}
 		chanOf = func(v ssa.Value, d int) *ssa.MakeChan {
-			if d > 6 || v == nil {
+			if d > 14 || v == nil {
 				return nil
 			}
 			r := core.Resolve(v)
@@ -797,7 +811,7 @@ func c13Acquisitions(e *Env) {
 				}
 			}
 			q := &core.PathQuery{Fn: f, From: call,
-				Stop:      func(in ssa.Instruction) bool { rc, ok := in.(*ssa.Call); return ok && sameKeyRel(rc) },
+				Stop: func(in ssa.Instruction) bool { rc, ok := in.(*ssa.Call); return ok && sameKeyRel(rc) },
 				DeferStop: func(d *ssa.Defer) bool {
 					if sameKeyRel(d) {
 						return true
@@ -984,7 +998,16 @@ func nstartReleasedOnError(e *Env, rule string) {
 					return false
 				}
 				n := core.CalleeName(c)
-				return n == "udp/client.Conn.releaseOutstandingInteraction" || n == "pkg/fn.FuncList.Execute"
+				if n == "udp/client.Conn.releaseOutstandingInteraction" || n == "pkg/fn.FuncList.Execute" {
+					return true
+				}
+				// a local clean-up closure that releases the slot (possibly under the flag that says whether one was taken)
+				if mk, isMk := core.Resolve(c.Call.Value).(*ssa.MakeClosure); isMk {
+					if body, isF := mk.Fn.(*ssa.Function); isF && len(core.CallsNamedDeep(body, "udp/client.Conn.releaseOutstandingInteraction")) > 0 {
+						return true
+					}
+				}
+				return false
 			},
 			Target: func(in ssa.Instruction) bool {
 				ret, isRet := in.(*ssa.Return)
